@@ -3,7 +3,7 @@ import ast
 
 from ..astutil import calls, expanded_facts, local_defs
 from ..facts import implies_le, fact_texts
-from ..model import src, walk_own
+from ..model import AnalysisError, src, walk_own
 from .cli_common import MAIN, NOT_BENEFICIAL, MainAnalysis
 
 OVERRIDE = 'PYMINIFY_FORCE_BEST_EFFORT'
@@ -88,7 +88,7 @@ def run(model, rep):
             else:
                 recv_ok = r is mcall
         if not (is_enc and recv_ok):
-            rep.violation('C14.CMP', where, 'return ' + text, 'returned value is not <result of minify()>.encode(...): ' + src(e), key=key)
+            rep.note('C14.CMP: return value at %s is not syntactically <result of minify()>.encode(...) (decided by the abstract evaluation of do_minify instead)' % where)
             continue
         xf = expanded_facts(facts, {})
         override = any(p and OVERRIDE in k and 'environ' in k for (k, p) in facts if not k.startswith('<'))
@@ -98,9 +98,9 @@ def run(model, rep):
         elif le:
             rep.ok('C14.CMP', where, 'return ' + text, 'dominated by len(%s) %s len(%s)' % (text, '<' if le == 'lt' else '<=', src_param), key=key)
         else:
-            rep.violation('C14.CMP', where, 'return ' + text,
-                          'no fact bounds len(%s) by len(%s) on every path to this return; facts: %s' % (text, src_param, fact_texts(facts)), key=key)
-    rep.floor('C14.CMP', 3)
+            rep.note('C14.CMP: no single fact bounds len(%s) by len(%s) at %s (decided by the abstract evaluation of do_minify instead)' % (text, src_param, where))
+    eval_rule(model, rep, A)
+    rep.floor('C14.CMP', 2)
 
     # CATCH
     mf = A.facts[A.main.qual]
@@ -142,3 +142,45 @@ def run(model, rep):
                   key='C14.ENV|%s|%s' % (fi.qual if fi else rel, k))
     rep.floor('C14.ENV', 1)
     rep.count('functions', len([f for f in model.funcs.values() if f.module == MAIN]))
+
+
+def eval_rule(model, rep, A):
+    """do_minify abstractly evaluated for results / sources of chosen lengths: without the override it returns the UTF-8 encoding of the
+    result exactly when that is not longer *in bytes* than the source, and raises the not-beneficial error otherwise."""
+    from ..absint import Interp, Obj, TOP
+    dm = A.do_minify
+    cases = [('ab', b'abc'), ('abc', b'abc'), ('abcd', b'abc'), ('', b''), ('a', b''), ('\xe9\xe9', b'abc'), ('\xe9', b'ab'), ('\xe9', b'a'), ('a€', b'abcd'), ('a€', b'abc'),
+             ('\U0001f600', b'abcd'), ('\U0001f600', b'abc'), ('x' * 40, b'y' * 39), ('x' * 39, b'y' * 40)]
+    specs = {}
+    import argparse
+    n = 0
+    for override in (None, '', '1'):
+        for (result, source) in cases:
+            hooks = {'minify': lambda I, e, args, kw, env, _r=result: _r,
+                     'os.environ.get': lambda I, e, args, kw, env, _o=override: (_o if args and args[0] == OVERRIDE else None),
+                     'os.getenv': lambda I, e, args, kw, env, _o=override: (_o if args and args[0] == OVERRIDE else None)}
+            I = Interp(model, MAIN, hooks)
+            I.MAX_PATHS = 64
+            ns = Obj('Namespace', preserve_globals=None, preserve_locals=None)   # every other option attribute is unknown (TOP): the size rule must not depend on them
+            res = I.explore(lambda: I.call_function(dm.qual, [source, 'f.py', ns]))
+            n += 1
+            want_bytes = result.encode('utf-8')
+            forced = bool(override)
+            for (o, ev, unk) in res:
+                label = 'result %r (%d bytes), source %d bytes, override %r' % (result[:6], len(want_bytes), len(source), override)
+                if o[0] == 'abort' or (o[0] == 'return' and o[1] is TOP):
+                    raise AnalysisError('UNDECIDED: do_minify(%s) -> %s %s' % (label, o, unk[:3]))
+                if not forced and len(want_bytes) == len(source):
+                    # "would not shrink": returning the (equally long) result or falling back to the original are both within the property
+                    ok = (o[0] == 'return' and o[1] == want_bytes) or (o[0] == 'raise' and NOT_BENEFICIAL in str(o[1]))
+                    why = 'must return the UTF-8 bytes of the result or fall back'
+                elif forced or len(want_bytes) < len(source):
+                    ok = o[0] == 'return' and o[1] == want_bytes
+                    why = 'must return the UTF-8 bytes of the result'
+                else:
+                    ok = o[0] == 'raise' and NOT_BENEFICIAL in str(o[1])
+                    why = 'must raise %s (the result is larger in bytes than the source)' % NOT_BENEFICIAL
+                if not ok:
+                    rep.violation('C14.CMP', dm.loc(), 'do_minify: ' + label, '%s, but it %s' % (why, 'returns %r' % (o[1],) if o[0] == 'return' else 'raises %s' % o[1]), key='C14.CMP|eval|' + label)
+                    return
+    rep.ok('C14.CMP', dm.loc(), 'do_minify evaluated on %d (result, source, override) cases incl. non-ASCII results' % n, 'returns the encoded result iff not larger in bytes (or forced)', cells=n, key='C14.CMP|eval')
